@@ -274,6 +274,10 @@ func runSession(prop, tier string, r *rng) {
 		for _, ft := range [][2]uint64{{10, 11}, {10, 10}, {10, 5}, {10, 0}, {1, 2}} {
 			e.sessionCase(prop, ft[0], ft[1], 4, []sessPeer{{have: 100}}, 400)
 		}
+		// the far ends of `to`: an error (or what the peers have), never a panic
+		for _, to := range []uint64{^uint64(0), ^uint64(0) - 1, 1 << 63} { // (smaller huge values would really be allocated)
+			e.sessionCase(prop, 10, to, 4, []sessPeer{{have: 100}}, 400)
+		}
 		// the same Byzantine answers against a client that was built WITHOUT a connection gater
 		e.nilGater = true
 		for _, b := range []string{"forged:0", "shift:1", "garbage", "wrongchain", "panicky:0"} {
